@@ -319,10 +319,16 @@ def run(ctx):
     rck = ctx.rule('R-CASKIND', 'withdraw CAS strong', minimum=1)
     rec = ctx.rule('R-EVENTCALLBACK', 'the callback a wait registers counts exactly one unit per completing future and '
                    'leaves the future alone; the per-input helper for shared futures forwards to it', minimum=4)
+    rwf = ctx.rule('R-WAITFORMS', 'every public Wait / WaitFor / WaitUntil overload hands the wait core exactly the futures '
+                   'it was given (all handles; end - begin; the count unchanged) and returns its answer as is; '
+                   'WaitIterator takes the single-future shortcut only under count == 1', minimum=12)
     rdl = ctx.rule('R-DEADLINE', 'every WaitUntil form hands the caller\'s time_point, unchanged, to the blocking '
                    'primitive (no conversion to a duration, no arithmetic on the way)', minimum=4)
     for cfg, fb in sorted(fbs.items()):
         ctx.guard(lambda: lib_wait.check_deadline(ctx, fb, rdl, 4))
+        from rules import lib_waitforms
+        if (ctx.guard(lambda: lib_waitforms.check_wait_forms(ctx, fb, rwf)) or 0) < 12:
+            ctx.guard(lambda: ctx.broken('R-WAITFORMS: the public wait overloads are not instantiated in %s' % cfg))
         if (ctx.guard(lambda: check_event_callbacks(ctx, fb, rec, ('CallCallback', 'EventHelperCallback'))) or 0) < 2:
             ctx.guard(lambda: ctx.broken('R-EVENTCALLBACK: CallCallback / EventHelperCallback not instantiated'))
         ctx.guard(lambda: lib_order.check(ctx, fb, cfg, ['yaclib::detail::BaseCore::_callback'], rwd, ro, rck))
